@@ -61,6 +61,7 @@ PUBMEM = {("hexEq", "hex"), ("hexEqRev", "hex"), ("hexToO", "hex"), ("strLen", "
 RELEASE = {"memEq", "memIsZero", "memCmp", "wwEq", "wwIsZero"}   # regular comparison verdicts
 VERDICT_FUNS = {"beltKWPUnwrap"}
 EXTRA = ["-DNDEBUG"]
+EXTRA32 = ["-DNDEBUG", "-U__SIZEOF_INT128__"]   # defs.h then selects B_PER_W = 32 (dword = u64)
 
 BASIC = {"unsigned long": (64, False), "unsigned long long": (64, False), "long": (64, True), "long long": (64, True),
          "int": (32, True), "unsigned int": (32, False), "unsigned": (32, False), "unsigned short": (16, False),
@@ -1216,15 +1217,15 @@ def generate(extra=EXTRA, module="C14IR"):
     return "\n".join(out) + "\n", W, funs, roots, safes
 
 
-def generate_obl(funs, module="C14IR"):
+def generate_obl(funs, module="C14IR", ns="Obl"):
     """per-routine obligations `ctFun prog true f_<name> = true` (kernel evaluation of the checker)"""
     out = ["/- GENERATED by xlate/x_c14_ir.py — per-routine obligations of property C14: the body of each",
            "   routine extracted from the current C source is accepted by the verified checker. -/",
-           "import Bee2V.C14.IR", "import Bee2V.Gen.%s" % module, "namespace Bee2V.C14.Obl",
+           "import Bee2V.C14.IR", "import Bee2V.Gen.%s" % module, "namespace Bee2V.C14.%s" % ns,
            "open Bee2V.C14.IR Bee2V.Gen.%s" % module, ""]
     for f in funs:
         out.append("theorem ct_%s : ctFun prog true f_%s = true := by decide" % (f["name"], f["name"]))
-    out.append("end Bee2V.C14.Obl")
+    out.append("end Bee2V.C14.%s" % ns)
     return "\n".join(out) + "\n"
 
 
